@@ -663,4 +663,439 @@ theorem compSpec_of_finish {Pc : List Vid} {v : Vid} {acc : Acc} {st0 st2 st3 : 
       exact (hdef e he).mpr hd
 
 
+/-! ### the induction -/
+
+theorem mem_tagDirs {vid : Vid} {n : Name} {ty : QTy} {dirs : List Dir} {x : Name × FieldRef}
+    (h : x ∈ tagDirs vid n ty dirs) : x.2 = .ctx vid n ty := by
+  induction dirs with
+  | nil => simp [tagDirs] at h
+  | cons d rest ih =>
+    cases d with
+    | tag t =>
+      simp only [tagDirs, List.mem_cons] at h
+      rcases h with rfl | h
+      · rfl
+      · exact ih h
+    | filter op arg => exact ih (by simpa [tagDirs] using h)
+    | output o => exact ih (by simpa [tagDirs] using h)
+
+theorem mem_countTags {e : Eid} {root : Vid} {fds : List FDir} {x : Name × FieldRef}
+    (h : x ∈ countTags e root fds) : x.2 = .fcount e root := by
+  induction fds with
+  | nil => simp [countTags] at h
+  | cons d rest ih =>
+    cases d with
+    | countTag t =>
+      simp only [countTags, List.mem_cons] at h
+      rcases h with rfl | h
+      · rfl
+      · exact ih h
+    | countOutput o => exact ih (by simpa [countTags] using h)
+    | countFilter op arg => exact ih (by simpa [countTags] using h)
+
+/-- preconditions of a run of phase A at vertex `vid` of the component with path `P` -/
+structure TagPre (P : List Vid) (vid : Vid) (st : St) : Prop where
+  vlt : vid < st.nextVid
+  sync : st.nextVid = st.nextEid + 1
+  bounded : TagsBounded st
+  pathB : ∀ x ∈ P, x < st.nextVid
+
+/-- what a successful run of phase A establishes -/
+structure TagPost (P : List Vid) (vid : Vid) (st st' : St) (acc : Acc) : Prop where
+  new : ∃ new, st'.tags = st.tags ++ new ∧
+    ∀ e ∈ new, NewTag P vid st.nextVid st.nextEid st'.nextVid st'.nextEid acc e
+  certs : ∀ f ∈ acc.folds, FoldCert P st'.tags acc.events f
+  uses : UsesUp P st'.tags acc
+
+theorem TagPost.bounded {P vid st st' acc} (h : TagPost P vid st st' acc) (hb : TagsBounded st)
+    (hv : st.nextVid ≤ st'.nextVid) (he : st.nextEid ≤ st'.nextEid) : TagsBounded st' := by
+  obtain ⟨new, h1, h2⟩ := h.new
+  exact hb.extend h1 h2 hv he
+
+theorem tags_sub_of_append {a b c : List TagEntry} (h : a = b ++ c) : ∀ e ∈ b, e ∈ a := by
+  intro e he; rw [h]; exact List.mem_append_left _ he
+
+
+theorem tags_spec (S : SchemaView) :
+    (∀ path vid pre node st acc st', fillNode S path vid pre node st = .ok (acc, st') →
+      TagPre path vid st → vid ∈ acc.verts.map (·.vid) ∧ TagPost path vid st st' acc) ∧
+    (∀ path vid ty fields st acc st', fillFields S path vid ty fields st = .ok (acc, st') →
+      TagPre path vid st → TagPost path vid st st' acc) := by
+  apply fill_induct S
+    (P1 := fun path vid _ _ st acc st' => TagPre path vid st →
+      vid ∈ acc.verts.map (·.vid) ∧ TagPost path vid st st' acc)
+    (P2 := fun path vid _ _ st acc st' => TagPre path vid st → TagPost path vid st st' acc)
+  · -- node
+    intro path vid pre coerceTo fields st post acc1 st' _ _ ih hpre
+    have p := ih hpre
+    refine ⟨by simp, ?_, ?_, ?_⟩
+    · obtain ⟨new, h1, h2⟩ := p.new
+      exact ⟨new, h1, fun e he => (h2 e he).weaken (Acc.le_append_right _ _)
+        (Nat.le_refl _) (Nat.le_refl _) (Nat.le_refl _) (Nat.le_refl _)⟩
+    · intro f hf
+      simp only [Acc.append_folds, List.nil_append] at hf
+      exact (p.certs f hf).mono (fun e he => he) (fun ev hev => hev)
+    · exact UsesUp.append (UsesUp.trivial rfl rfl) p.uses
+  · -- nil
+    intro path vid ty st _
+    refine ⟨⟨[], by simp, by simp⟩, ?_, UsesUp.trivial rfl rfl⟩
+    intro f hf; simp at hf
+  · -- prop
+    intro path vid ty n dirs rest st pty st1 acc1 st' _ h2 h3 ih hpre
+    obtain ⟨hv1, he1, _, ht1⟩ := registerTags_inv h2
+    have c := (counted S).2 _ _ _ _ _ _ _ h3
+    have hvm := c.vmono; have hem := c.emono
+    -- the tags registered here
+    have hreg : ∀ e ∈ (tagDirs vid n pty dirs).map (fun (x : Name × FieldRef) =>
+        (⟨x.1, x.2, path⟩ : TagEntry)), e.path = path ∧ e.field = .ctx vid n pty := by
+      intro e he
+      simp only [List.mem_map] at he
+      obtain ⟨x, hx, rfl⟩ := he
+      exact ⟨rfl, mem_tagDirs hx⟩
+    have hpre1 : TagPre path vid st1 := by
+      refine ⟨by have := hpre.vlt; nomega, by have := hpre.sync; nomega, ?_, ?_⟩
+      · refine ⟨?_, ?_, ?_⟩
+        · intro e he
+          rw [ht1, List.mem_append] at he
+          rcases he with he | he
+          · have := hpre.bounded.defAt e he; nomega
+          · obtain ⟨_, hf⟩ := hreg e he
+            rw [hf]; simp only [definedAt]; have := hpre.vlt; nomega
+        · intro e he x r hx
+          rw [ht1, List.mem_append] at he
+          rcases he with he | he
+          · have := hpre.bounded.eidB e he x r hx; nomega
+          · obtain ⟨_, hf⟩ := hreg e he
+            rw [hf] at hx; cases hx
+        · intro e he x hx
+          rw [ht1, List.mem_append] at he
+          rcases he with he | he
+          · have := hpre.bounded.pathB e he x hx; nomega
+          · obtain ⟨hp, _⟩ := hreg e he
+            rw [hp] at hx; have := hpre.pathB x hx; nomega
+      · intro x hx; have := hpre.pathB x hx; nomega
+    have p := ih hpre1
+    obtain ⟨new, hn1, hn2⟩ := p.new
+    refine ⟨⟨(tagDirs vid n pty dirs).map (fun (x : Name × FieldRef) =>
+        (⟨x.1, x.2, path⟩ : TagEntry)) ++ new, by rw [hn1, ht1, List.append_assoc], ?_⟩, ?_, ?_⟩
+    · intro e he
+      rw [List.mem_append] at he
+      rcases he with he | he
+      · obtain ⟨hp, hf⟩ := hreg e he
+        refine ⟨by rw [hp]; exact List.prefix_refl _, ?_, ?_, ?_, ?_, ?_⟩
+        · left; rw [hf]; rfl
+        · rw [hf]; simp only [definedAt]; have := hpre.vlt; nomega
+        · intro x r hx; rw [hf] at hx; cases hx
+        · intro x hx; rw [hp] at hx; have := hpre.pathB x hx; nomega
+        · left; refine ⟨hp, ?_⟩; rw [hf]; exact Or.inl rfl
+      · have := (hn2 e he).weaken (Acc.le_append_right ({ outs := outputDirs vid n pty dirs }) acc1)
+          (Nat.le_of_eq hv1.symm) (Nat.le_of_eq he1.symm) (Nat.le_refl _) (Nat.le_refl _)
+        exact this
+    · intro f hf
+      simp only [Acc.append_folds, List.nil_append] at hf
+      exact (p.certs f hf).mono (fun e he => he) (fun ev hev => hev)
+    · exact UsesUp.append (UsesUp.trivial rfl rfl) p.uses
+  · -- fold
+    intro path vid ty n params fds child rest st ed ps accIn st2 comp evs st3 post evPost st4 st5
+      accR st' _ _ h3 h4 h5 h6 h7 ihC ihR hpre
+    have cC := (counted S).1 _ _ _ _ _ _ _ h3
+    have cR := (counted S).2 _ _ _ _ _ _ _ h7
+    have b1 : st.bump.nextVid = st.nextVid + 1 := rfl
+    have b2 : st.bump.nextEid = st.nextEid + 1 := rfl
+    have b3 : st.bump.tags = st.tags := rfl
+    rw [b1, b2] at cC
+    have hCv := cC.vmono; have hCe := cC.emono; have hCs := cC.sync
+    have hRv := cR.vmono; have hRe := cR.emono
+    have hvlt := hpre.vlt; have hsync := hpre.sync
+    -- the folded component
+    have preC : TagPre (path ++ [st.nextVid]) st.nextVid st.bump := by
+      refine ⟨by rw [b1]; nomega, by rw [b1, b2]; nomega,
+        hpre.bounded.mono b3 (by rw [b1]; nomega) (by rw [b2]; nomega), ?_⟩
+      intro x hx
+      rw [List.mem_append, List.mem_singleton] at hx
+      rcases hx with hx | rfl
+      · have := hpre.pathB x hx; rw [b1]; nomega
+      · rw [b1]; nomega
+    obtain ⟨hinC, pC⟩ := ihC preC
+    obtain ⟨newC, htC, hnC⟩ := pC.new
+    have hold : ∀ e ∈ st.bump.tags, e.path ≠ path ++ [st.nextVid] ∧ definedAt e.field < st.nextVid ∧
+        ∀ x r, e.field = .fcount x r → x < st.bump.nextEid := by
+      intro e he
+      rw [b3] at he
+      refine ⟨?_, hpre.bounded.defAt e he, ?_⟩
+      · intro hp
+        have := hpre.bounded.pathB e he st.nextVid (by rw [hp]; simp)
+        nomega
+      · intro x r hx; have := hpre.bounded.eidB e he x r hx; rw [b2]; nomega
+    have cs := compSpec_of_finish hinC htC hnC hold (by rw [b1, b2]; exact cC)
+      (by rw [b1]; nomega) pC.certs pC.uses h4
+    obtain ⟨hvs, hes, hcore23⟩ := allVids_finish h4
+    have hcore34 := resolveFilters_core h5
+    obtain ⟨hres, hraise⟩ := resolveFilters_spec h5
+    obtain ⟨hv5, he5, _, ht5⟩ := registerTags_inv h6
+    have ht3 : st3.tags = st.tags ++ newC := by rw [← hcore23.2.2, htC, b3]
+    have ht4 : st4.tags = st.tags ++ newC := by rw [← hcore34.2.2, ht3]
+    rw [b1, b2] at hnC
+    have hreg : ∀ e ∈ (countTags st.nextEid st.nextVid fds).map (fun (x : Name × FieldRef) =>
+        (⟨x.1, x.2, path⟩ : TagEntry)), e.path = path ∧ e.field = .fcount st.nextEid st.nextVid := by
+      intro e he
+      simp only [List.mem_map] at he
+      obtain ⟨x, hx, rfl⟩ := he
+      exact ⟨rfl, mem_countTags hx⟩
+    have e23v := hcore23.1; have e23e := hcore23.2.1
+    have e34v := hcore34.1; have e34e := hcore34.2.1
+    have bnd2 : TagsBounded st2 := pC.bounded preC.bounded (by rw [b1]; nomega) (by rw [b2]; nomega)
+    have bnd5 : TagsBounded st5 := by
+      refine ⟨?_, ?_, ?_⟩
+      · intro e he
+        rw [ht5, List.mem_append] at he
+        rcases he with he | he
+        · rw [ht4, ← b3, ← htC] at he
+          have := bnd2.defAt e he; nomega
+        · obtain ⟨_, hf⟩ := hreg e he
+          rw [hf]; simp only [definedAt]; nomega
+      · intro e he x r hx
+        rw [ht5, List.mem_append] at he
+        rcases he with he | he
+        · rw [ht4, ← b3, ← htC] at he
+          have := bnd2.eidB e he x r hx; nomega
+        · obtain ⟨_, hf⟩ := hreg e he
+          rw [hf] at hx; cases hx; nomega
+      · intro e he x hx
+        rw [ht5, List.mem_append] at he
+        rcases he with he | he
+        · rw [ht4, ← b3, ← htC] at he
+          have := bnd2.pathB e he x hx; nomega
+        · obtain ⟨hp, _⟩ := hreg e he
+          rw [hp] at hx; have := hpre.pathB x hx; nomega
+    have preR : TagPre path vid st5 :=
+      ⟨by nomega, by nomega, bnd5, fun x hx => by have := hpre.pathB x hx; nomega⟩
+    have pR := ihR preR
+    obtain ⟨newR, htR, hnR⟩ := pR.new
+    -- names
+    let fold := mkFold path vid st n ps comp evs fds post
+    have hfe : fold.eid = st.nextEid := rfl
+    have hft : fold.toVid = st.nextVid := rfl
+    have hfc : fold.component = comp := rfl
+    have hfi : fold.imports = importsAt path.length evs := rfl
+    have hfp : fold.post = post := rfl
+    have hT3 : ∀ e ∈ st3.tags, e ∈ st'.tags := by
+      intro e he
+      rw [htR, ht5, ht4, ← ht3]
+      exact List.mem_append_left _ (List.mem_append_left _ he)
+    have hPf : path <+: path ++ [st.nextVid] := List.prefix_append _ _
+    have hlen : (path ++ [st.nextVid]).length = path.length + 1 := by simp
+    have hregs : ∀ e ∈ (countTags st.nextEid st.nextVid fds).map (fun (x : Name × FieldRef) =>
+        (⟨x.1, x.2, path⟩ : TagEntry)), e ∈ st'.tags := by
+      intro e he; rw [htR, ht5]; exact List.mem_append_left _ (List.mem_append_right _ he)
+    have hused : foldsTagsUsed [fold] = post.flatMap filterTags ++ tagsUsed comp ++ [] := rfl
+    refine ⟨⟨newC ++ (countTags st.nextEid st.nextVid fds).map (fun (x : Name × FieldRef) =>
+        (⟨x.1, x.2, path⟩ : TagEntry)) ++ newR, ?_, ?_⟩, ?_, ?_⟩
+    · rw [htR, ht5, ht4]; simp only [List.append_assoc]
+    · -- the new tags
+      intro e he
+      rw [List.mem_append, List.mem_append] at he
+      rcases he with (he | he) | he
+      · have hn := hnC e he
+        have hlo := hn.lo; have hhi := hn.hi
+        refine ⟨hPf.trans hn.pre, Or.inr (by rcases hlo with h | h <;> nomega), by nomega, ?_, ?_,
+          Or.inr ⟨by have := hn.pre.length_le; rw [hlen] at this; omega, fold, by simp [fold], ?_⟩⟩
+        · intro x r hx; have := hn.eid x r hx; nomega
+        · intro x hx; have := hn.pathB x hx; nomega
+        · rcases hn.cls with ⟨_, hd⟩ | ⟨_, f', hf', hd⟩
+          · cases hf : e.field with
+            | ctx u nm t =>
+              rw [hf] at hd
+              show u ∈ allVids comp
+              rw [hvs]; simp only [accVids, List.mem_append]
+              rcases hd with rfl | hd
+              · exact Or.inl hinC
+              · exact Or.inl hd
+            | fcount x r =>
+              rw [hf] at hd
+              obtain ⟨g, hg, hge, _⟩ := hd
+              show x ∈ allEids comp
+              rw [hes]; simp only [accEids, List.mem_append]
+              exact Or.inr (hge ▸ eid_mem_foldsEids hg)
+          · cases hf : e.field with
+            | ctx u nm t =>
+              rw [hf] at hd
+              show u ∈ allVids comp
+              rw [hvs]; simp only [accVids, List.mem_append]
+              exact Or.inr (mem_foldsVids hf' hd)
+            | fcount x r =>
+              rw [hf] at hd
+              show x ∈ allEids comp
+              rw [hes]; simp only [accEids, List.mem_append]
+              exact Or.inr (mem_foldsEids hf' hd)
+      · obtain ⟨hp, hf⟩ := hreg e he
+        refine ⟨by rw [hp]; exact List.prefix_refl _, Or.inr ?_, ?_, ?_, ?_, Or.inl ⟨hp, ?_⟩⟩
+        · rw [hf]; simp only [definedAt]; nomega
+        · rw [hf]; simp only [definedAt]; nomega
+        · intro x r hx; rw [hf] at hx; cases hx; constructor <;> nomega
+        · intro x hx; rw [hp] at hx; have := hpre.pathB x hx; nomega
+        · rw [hf]; exact ⟨fold, by simp [fold], rfl, rfl⟩
+      · exact (hnR e he).weaken (Acc.le_append_right _ accR) (by nomega) (by nomega)
+          (Nat.le_refl _) (Nat.le_refl _)
+    · -- the certificates
+      intro f hf
+      simp only [Acc.append_folds, List.cons_append, List.nil_append, List.mem_cons] at hf
+      rcases hf with rfl | hf
+      · refine ⟨?_, ?_, cs.U4, ?_, ?_⟩
+        · intro r hr
+          rw [hfi, mem_importsAt] at hr
+          obtain ⟨_, h2, e, he, h3, h4, h5⟩ := cs.U2 _ hr
+          simp only at h2 h3 h4
+          have hpe : e.path = path :=
+            (List.prefix_of_prefix_length_le h5 hPf (by omega)).eq_of_length h4
+          refine ⟨h2, ?_, e, hT3 e he, hpe, h3⟩
+          rw [ht3, List.mem_append] at he
+          rcases he with he | he
+          · rw [← h3, hft]; exact hpre.bounded.defAt e he
+          · have := (hnC e he).pre.length_le
+            rw [hlen, h4] at this; omega
+        · intro r hr
+          obtain ⟨e, he, h1, h2⟩ := cs.U1 r hr
+          refine ⟨e, hT3 e he, h1, fun hp => ?_⟩
+          rw [hfi, mem_importsAt]
+          rcases h2 with h2 | ⟨_, _, h2⟩
+          · have := h2.length_le; rw [hp, hlen] at this; omega
+          · rw [hp] at h2; exact h2
+        · intro chain hc
+          apply cs.U3
+          intro ev hev
+          rw [List.mem_append]
+          by_cases hk : ev.1 = path.length
+          · left; rw [hfi, mem_importsAt, ← hk]; exact hev
+          · right
+            apply hc
+            simp only [Acc.append_events, List.mem_append]
+            exact Or.inl (Or.inl (mem_importsAbove.mpr ⟨hev, hk⟩))
+        · intro r hr
+          obtain ⟨e, he, h1, h2, h3, h4⟩ := hres r hr
+          refine ⟨h3, e, hT3 e he, h1, ?_⟩
+          by_cases hl : e.path.length = path.length
+          · exact Or.inl (h2.eq_of_length hl)
+          · right
+            rcases h4 with h4 | h4
+            · exact absurd h4 hl
+            · simp only [Acc.append_events, List.mem_append]
+              exact Or.inl (Or.inr h4)
+      · exact (pR.certs f hf).mono (fun e he => he)
+          (fun ev hev => by simp only [Acc.append_events, List.mem_append]; exact Or.inr hev)
+    · -- what the enclosing component needs
+      refine UsesUp.append ⟨?_, ?_⟩ pR.uses
+      · intro r hr
+        change r ∈ foldsTagsUsed [fold] at hr
+        rw [hused, List.append_nil, List.mem_append] at hr
+        rcases hr with hr | hr
+        · obtain ⟨e, he, h1, h2, _, h4⟩ := hres r hr
+          refine ⟨e, hT3 e he, h1, ?_⟩
+          by_cases hl : e.path.length = path.length
+          · left; rw [h2.eq_of_length hl]; exact List.prefix_refl _
+          · right
+            refine ⟨h2, by have := h2.length_le; omega, ?_⟩
+            rcases h4 with h4 | h4
+            · exact absurd h4 hl
+            · exact List.mem_append_right _ h4
+        · obtain ⟨e, he, h1, h2⟩ := cs.U1 r hr
+          refine ⟨e, hT3 e he, h1, ?_⟩
+          rcases h2 with h2 | ⟨hp', hlt, hev⟩
+          · exact Or.inl (hPf.trans h2)
+          · by_cases hl : e.path.length = path.length
+            · left
+              rw [(List.prefix_of_prefix_length_le hp' hPf (by omega)).eq_of_length hl]
+              exact List.prefix_refl _
+            · right
+              rw [hlen] at hlt
+              refine ⟨List.prefix_of_prefix_length_le hp' hPf (by omega), by omega, ?_⟩
+              exact List.mem_append_left _ (mem_importsAbove.mpr ⟨hev, hl⟩)
+      · intro ev hev
+        change ev ∈ importsAbove path.length evs ++ evPost at hev
+        change _ ∧ ev.2 ∈ foldsTagsUsed [fold] ∧ _
+        rw [hused, List.append_nil]
+        rw [List.mem_append] at hev
+        rcases hev with hev | hev
+        · obtain ⟨hev, hne⟩ := mem_importsAbove.mp hev
+          obtain ⟨h1, h2, e, he, h3, h4, h5⟩ := cs.U2 ev hev
+          rw [hlen] at h1
+          exact ⟨by omega, List.mem_append_right _ h2, e, hT3 e he, h3, h4,
+            List.prefix_of_prefix_length_le h5 hPf (by omega)⟩
+        · obtain ⟨e, he, rfl, h2, h3, h4⟩ := hraise ev hev
+          exact ⟨h3, List.mem_append_left _ h4, e, hT3 e he, rfl, rfl, h2⟩
+  · -- plain / optional / recursive edge
+    intro path vid ty n params kind child rest st ed ps r accC st2 accR st' _ _ _ _ h4 h5 ihC ihR hpre
+    have cC := (counted S).1 _ _ _ _ _ _ _ h4
+    have cR := (counted S).2 _ _ _ _ _ _ _ h5
+    have b1 : st.bump.nextVid = st.nextVid + 1 := rfl
+    have b2 : st.bump.nextEid = st.nextEid + 1 := rfl
+    have b3 : st.bump.tags = st.tags := rfl
+    rw [b1, b2] at cC
+    have hCv := cC.vmono; have hCe := cC.emono; have hCs := cC.sync
+    have hRv := cR.vmono; have hRe := cR.emono
+    have hvlt := hpre.vlt; have hsync := hpre.sync
+    have preC : TagPre path st.nextVid st.bump :=
+      ⟨by rw [b1]; nomega, by rw [b1, b2]; nomega,
+        hpre.bounded.mono b3 (by rw [b1]; nomega) (by rw [b2]; nomega),
+        fun x hx => by have := hpre.pathB x hx; rw [b1]; nomega⟩
+    obtain ⟨hinC, pC⟩ := ihC preC
+    obtain ⟨newC, htC, hnC⟩ := pC.new
+    rw [b1, b2] at hnC
+    rw [b3] at htC
+    have bnd2 : TagsBounded st2 := pC.bounded preC.bounded (by rw [b1]; nomega) (by rw [b2]; nomega)
+    have preR : TagPre path vid st2 :=
+      ⟨by nomega, by nomega, bnd2, fun x hx => by have := hpre.pathB x hx; nomega⟩
+    have pR := ihR preR
+    obtain ⟨newR, htR, hnR⟩ := pR.new
+    have le1 : Acc.le accC
+        (({ edges := [⟨st.nextEid, vid, st.nextVid, n, ps, isOptionalKind kind, r⟩] } : Acc) ++ accC ++
+          accR) :=
+      Acc.le_trans (Acc.le_append_right _ accC) (Acc.le_append_left _ accR)
+    refine ⟨⟨newC ++ newR, by rw [htR, htC, List.append_assoc], ?_⟩, ?_, ?_⟩
+    · intro e he
+      rw [List.mem_append] at he
+      rcases he with he | he
+      · exact (hnC e he).ofChild le1 (le1.1 _ hinC) hRv hRe
+      · exact (hnR e he).weaken (Acc.le_append_right _ accR) (by nomega) (by nomega)
+          (Nat.le_refl _) (Nat.le_refl _)
+    · intro f hf
+      simp only [Acc.append_folds, List.nil_append, List.mem_append] at hf
+      rcases hf with hf | hf
+      · exact (pC.certs f hf).mono (tags_sub_of_append htR)
+          (fun ev hev => by simp only [Acc.append_events, List.mem_append]; exact Or.inl (Or.inr hev))
+      · exact (pR.certs f hf).mono (fun e he => he)
+          (fun ev hev => by simp only [Acc.append_events, List.mem_append]; exact Or.inr hev)
+    · exact UsesUp.append (UsesUp.append (UsesUp.trivial rfl rfl)
+        (pC.uses.mono (tags_sub_of_append htR))) pR.uses
+
+/-- clauses 5 and 6 -/
+theorem toIR_tags_imports {S : SchemaView} {q : Query} {ir : IRQuery} (h : toIR S q = .ok ir) :
+    wfTagsC [] ir.rootComponent = true ∧ wfImportsC ir.rootComponent = true := by
+  obtain ⟨root, rootParams, acc, st1, comp, evs, st2, vars, _, _, h3, h4, _, _, _, rfl⟩ := toIR_inv h
+  have i1 : St.init.nextVid = 2 := rfl
+  have i2 : St.init.nextEid = 1 := rfl
+  have i3 : St.init.tags = [] := rfl
+  have pre : TagPre [1] 1 St.init := by
+    refine ⟨by rw [i1]; decide, by rw [i1, i2], ⟨?_, ?_, ?_⟩, ?_⟩
+    · intro e he; rw [i3] at he; simp at he
+    · intro e he; rw [i3] at he; simp at he
+    · intro e he; rw [i3] at he; simp at he
+    · intro x hx; simp only [List.mem_singleton] at hx; rw [hx, i1]; decide
+  obtain ⟨hin, p⟩ := (tags_spec S).1 _ _ _ _ _ _ _ h3 pre
+  obtain ⟨new, ht, hn⟩ := p.new
+  have cnt := (counted S).1 _ _ _ _ _ _ _ h3
+  have cs := compSpec_of_finish hin ht hn (by intro e he; rw [i3] at he; simp at he) cnt
+    (by rw [i1]; decide) p.certs p.uses h4
+  refine ⟨?_, cs.U4⟩
+  apply cs.U3
+  intro ev hev
+  exfalso
+  obtain ⟨h1, _, e, he, _, h4', _⟩ := cs.U2 ev hev
+  have hcore := (allVids_finish h4).2.2
+  rw [← hcore.2.2, ht, i3, List.nil_append] at he
+  have := (hn e he).pre.length_le
+  simp only [List.length_singleton] at this h1
+  omega
+
+
 end TF.Frontend
